@@ -153,7 +153,14 @@ func enumerateCrashes(base *simdisk.Image, tr []simdisk.Ev, only *CrashSel, rng 
 				}
 			}
 			n := cur.OpenLen()
-			if n >= 1 && k > 0 && (epochEnd || e == len(tr) || (n >= 2 && rng.Chance(0.05))) {
+			// subset images: at every epoch end and at random points inside epochs; the
+			// number of random points is scaled so that long traces stay within the budget
+			pmid := 0.05
+			if maxImages > 0 && len(tr) > 0 && float64(maxImages)/float64(len(tr)) < pmid {
+				pmid = float64(maxImages) / float64(len(tr)) / 2
+			}
+			overBudget := maxImages > 0 && st.Images > 2*maxImages
+			if n >= 1 && k > 0 && !overBudget && (epochEnd || e == len(tr) || (n >= 2 && rng.Chance(pmid))) {
 				for j := 0; j < k; j++ {
 					q := []float64{0.2, 0.5, 0.8}[rng.Intn(3)]
 					mask := make([]byte, n)
